@@ -51,7 +51,7 @@ def gen_case(rng, ctx):
         sch = [list(v) for v in ref.PRESETS[rng.choice(["unifying", "pseudodistance", "induced_half"])]]
         return {"ds": ds, "scheme": sch, "configs": ["BioConsert", "BioCo", "Borda", "Copeland", "KwikSort"],
                 "one": rng.random() < 0.5, "libseed": rng.randrange(10 ** 6), "dcls": "large", "scls": "S1"}
-    case = algos.gen_algo_case(rng, ctx, classes="D1 D2 D3 D3 D4 D5 D6 D7 D7 D8 D9 D10 D16 D17", schemes="S1 S1 S2 S3 S3 S6 S7 S9 S10 S10 S11 S12",
+    case = algos.gen_algo_case(rng, ctx, classes="D1 D2 D3 D3 D4 D5 D6 D7 D7 D8 D9 D10 D16 D17 D18", schemes="S1 S1 S2 S3 S3 S6 S7 S9 S10 S10 S11 S12",
                                nmax=6 if "D" in ctx.mode else 8)
     return case
 
